@@ -116,6 +116,29 @@ def check(ctx, stream, native, conv, vclass, matcher, bounds, nontrivial, extra=
                 d.update(extra)
             ctx.disagree(stream, "%s @%s" % (native, t), str(got), str(want), True, d, spec=str(want))
             return
+        # the same release written another way (2.0.0 / 2.0 / 2 / 2.0.0.0): where the scheme says it is the same
+        # version, the answer is the same
+        alts = [t + ".0"]
+        u = t
+        while u.endswith(".0"):
+            u = u[:-2]
+            alts.append(u)
+        for t2 in alts:
+            try:
+                pv2 = vclass(t2)
+                if not (pv2 == pv):
+                    continue
+            except Exception:  # noqa: BLE001
+                continue
+            try:
+                got2 = pv2 in r
+            except Exception as e:  # noqa: BLE001
+                got2 = "raises %s" % type(e).__name__
+            if got2 != want:
+                d = {"native": native, "vers": str(r), "probe": t2, "same_version_as": t, "native_matcher_says": want,
+                     "vers_says": got2, "clause": "membership of %s (the same version as %s) differs" % (t2, t)}
+                ctx.disagree(stream, "%s @%s" % (native, t2), str(got2), str(want), True, d, spec=str(want))
+                return
 
 
 def correspondence(ctx):
@@ -185,7 +208,10 @@ def correspondence(ctx):
             e, bd, f = ">= %s, < %s, != %s" % (rel(*a), rel(*b2), rel(*m)), [a, b2, m], (lambda p, m=m, b2=b2: a <= p < b2 and p != m)
         check(ctx, "gem", e, VR.GemVersionRange.from_native, V.RubygemsVersion,
               lambda t, f=f: f(tuple(int(i) for i in t.split("."))), bd, kind not in ("exact", "ge"))
-        req = G.GemRequirement.from_string(e)
+        try:
+            req = G.GemRequirement.from_string(e)
+        except Exception:  # noqa: BLE001 — the vendored matcher itself fails: no second opinion
+            continue
         check(ctx, "gem-native", e, VR.GemVersionRange.from_native, V.RubygemsVersion,
               lambda t: req.satisfied_by(G.GemVersion(t)), bd, kind not in ("exact", "ge"))
     # ---------------- pypi
@@ -235,7 +261,10 @@ def correspondence(ctx):
                     (lambda p: (inlo(p, a) and inhi(p, b)) or c <= p < d)
             # hand-written reading of the interval notation first (maven.VersionRange is part of the code under test)
             check(ctx, sname, e, rcls.from_native, vcls, lambda t, f=f: f(tuple(int(i) for i in t.split("."))), bd, kind in ("interval", "two"))
-            mr = M.VersionRange(e)
+            try:
+                mr = M.VersionRange(e)
+            except Exception:  # noqa: BLE001 — the vendored matcher itself fails: no second opinion
+                continue
             check(ctx, sname + "-native", e, rcls.from_native, vcls, lambda t: M.Version(t) in mr, bd, kind in ("interval", "two"))
     # ---------------- conan
     rng = ctx.rng("c06", "conan")
@@ -261,7 +290,10 @@ def correspondence(ctx):
             e, bd, f = ">=" + rel(*a), [a], (lambda p: p >= a)
         check(ctx, "conan", e, VR.ConanVersionRange.from_native, V.ConanVersion,
               lambda t, f=f: f(tuple(int(i) for i in t.split("."))), bd, kind in ("tilde", "caret", "interval"))
-        cr = ConanRange(e)
+        try:
+            cr = ConanRange(e)
+        except Exception:  # noqa: BLE001 — the vendored matcher itself fails: no second opinion
+            continue
         check(ctx, "conan-native", e, VR.ConanVersionRange.from_native, V.ConanVersion, lambda t: V.ConanVersion(t) in cr, bd,
               kind in ("tilde", "caret", "interval"))
     # ---------------- nginx (hand-written reading of the notation)
